@@ -471,6 +471,22 @@ def list_extend(eng, st, l, it):
             at = pos[x] if z3.is_int_value(n) and n.as_long() == 0 else n + pos[x]
             axs.append(FA([x], z3.Implies(z3.Select(sdom, x), z3.And(0 <= pos[x], pos[x] < m, z3.Select(e2, at) == x)),
                           patterns=[z3.Select(sdom, x)]))
+        if seq.tag == "filter" and getattr(seq, "flt", None) is not None and isinstance(seq.src, tuple) and len(seq.src) >= 4 \
+                and seq.src[0] == "order":
+            # [x for x in <set> if cond(x)]: every element of the set that satisfies the condition is in the list, and where
+            _, order, pos, sdom = seq.src[:4]
+            fsrc, fdst, g = seq.flt
+            probe = z3.Const(fresh_name("cj"), I)
+            try:
+                same = z3.simplify(unwrap(g.elt_at(probe), rec["ekind"])).eq(z3.simplify(z3.Select(order, probe)))
+            except Exception:  # noqa
+                same = False
+            if same:
+                x = z3.Const(fresh_name("cx"), order.sort().range())
+                w = fdst[pos[x]]
+                at = w if z3.is_int_value(n) and n.as_long() == 0 else n + w
+                axs.append(FA([x], z3.Implies(z3.And(z3.Select(sdom, x), g.cond_at(pos[x])),
+                                              z3.And(0 <= w, w < m, z3.Select(e2, at) == x)), patterns=[z3.Select(sdom, x)]))
         return [("ok", s.assume(*axs).updobj(l.oid, len=n + m, elem=e2), NONE)]
     return eng.bind(seq_outs, go)
 
@@ -719,6 +735,10 @@ def container_method(eng, st, recv, name, pos, kw):
     if recv.kind == "set":
         if rec.get("lazy") and name in ("add", "update"):
             kk = value_kind(pos[0])
+            if kk is None and isinstance(pos[0], VObj) and pos[0].kind == "set" and not st.objs[pos[0].oid].get("lazy"):
+                kk = st.objs[pos[0].oid]["kkind"]
+            if kk is None and isinstance(pos[0], VObj) and pos[0].kind == "set":
+                return [("ok", st, NONE)]          # update of an empty set with an empty set
             if kk is None:
                 raise Unsupported("lazy set of non-scalar")
             st = st.setobj(recv.oid, {"dom": z3.K(sort_of(kk), z3.BoolVal(False)), "kkind": kk})
@@ -746,6 +766,17 @@ def container_method(eng, st, recv, name, pos, kw):
                 else:
                     res.append(eng.raise_(s, "KeyError"))
             return res
+        if name in ("update", "difference_update") and isinstance(pos[0], VObj) and pos[0].kind == "set":
+            # with a SET argument: pointwise union / difference
+            orec = st.objs[pos[0].oid]
+            if orec.get("lazy"):
+                return [("ok", st, NONE)]
+            newdom = fresh("setupd", rec["dom"].sort())
+            k = z3.Const(fresh_name("uk"), rec["dom"].sort().domain())
+            a, b = z3.Select(rec["dom"], k), z3.Select(orec["dom"], k)
+            ax = FA([k], z3.Select(newdom, k) == (z3.Or(a, b) if name == "update" else z3.And(a, z3.Not(b))),
+                    patterns=[z3.Select(newdom, k)])
+            return [("ok", commit(st.assume(ax), newdom), NONE)]
         if name in ("update", "difference_update"):
             # set.update(iterable) / set.difference_update(iterable) for a list argument: membership of every element set / cleared
             seq = to_seq(eng, st, pos[0])
@@ -839,6 +870,8 @@ def bi_hasattr(eng, st, pos, kw):
 
 def bi_getattr(eng, st, pos, kw):
     v, name = pos[0], pos[1]
+    if not isinstance(name, VConc) and lit_to_py(name) is not None:
+        name = VConc(lit_to_py(name))          # e.g. the loop variable of an unrolled loop over a list of literal names
     if not isinstance(name, VConc):
         h = eng.hooks.get("getattr_dyn")
         if h:
